@@ -334,26 +334,30 @@ FASTOR_INLINE SIMDVector<T,ABI> operator/(T a, const SIMDVector<T,ABI> &b) {
 
 template<typename T, typename ABI>
 FASTOR_INLINE SIMDVector<T,ABI> rcp(const SIMDVector<T,ABI> &a) {
-    SIMDVector<T,ABI> out;
-    for (FASTOR_INDEX i=0; i<a.Size; ++i)
-        out.value[i] = T(1.)/a.value[i];
-    return out;
+    // lanes through memory: for the integer specialisations value is a register, not an array of T
+    T val[SIMDVector<T,ABI>::Size];
+    a.store(val,false);
+    for (FASTOR_INDEX i=0; i<SIMDVector<T,ABI>::Size; ++i)
+        val[i] = T(1.)/val[i];
+    return SIMDVector<T,ABI>(val,false);
 }
 
 template<typename T, typename ABI>
 FASTOR_INLINE SIMDVector<T,ABI> sqrt(const SIMDVector<T,ABI> &a) {
-    SIMDVector<T,ABI> out;
-    for (FASTOR_INDEX i=0; i<a.Size; ++i)
-        out.value[i] = std::sqrt(a.value[i]);
-    return out;
+    T val[SIMDVector<T,ABI>::Size];
+    a.store(val,false);
+    for (FASTOR_INDEX i=0; i<SIMDVector<T,ABI>::Size; ++i)
+        val[i] = std::sqrt(val[i]);
+    return SIMDVector<T,ABI>(val,false);
 }
 
 template<typename T, typename ABI>
 FASTOR_INLINE SIMDVector<T,ABI> rsqrt(const SIMDVector<T,ABI> &a) {
-    SIMDVector<T,ABI> out;
-    for (FASTOR_INDEX i=0; i<a.Size; ++i)
-        out.value[i] = T(1.)/std::sqrt(a.value[i]);
-    return out;
+    T val[SIMDVector<T,ABI>::Size];
+    a.store(val,false);
+    for (FASTOR_INDEX i=0; i<SIMDVector<T,ABI>::Size; ++i)
+        val[i] = T(1.)/std::sqrt(val[i]);
+    return SIMDVector<T,ABI>(val,false);
 }
 
 template<typename T, typename ABI>
